@@ -382,6 +382,7 @@ type v6World struct {
 	honestRead map[string]bool     // request key -> a complete honest response was read by the client
 	harnessErr string
 	cancelCall func() // cancels the context the getter was called with
+	defaultAns string // answer to attempts beyond the script ("" = silence)
 }
 
 // endCaller cancels the caller's context; it runs on the client's own goroutine, inside stream.Read, so the
@@ -463,6 +464,9 @@ func (w *v6World) endpoint(s *v6Stream) {
 	i := w.attempts[key]
 	w.attempts[key]++
 	ans := "hang"
+	if w.defaultAns != "" {
+		ans = w.defaultAns
+	}
 	if sc := w.script[key]; i < len(sc) {
 		ans = sc[i]
 	}
